@@ -245,6 +245,7 @@ class EncodeDense(Dense_):
         self._encoders = encoders
 
     def __getitem__(self, key: Union[int,str]):
+        if key.__class__ is not int: key = self.headers[key]
         return self._encoders[key](self._row[key])
 
     def __iter__(self) -> Iterator:
